@@ -1,24 +1,39 @@
 // M3 replay of spec/Resync.tla: ObjectHeaderBase::read on a real UncompressedFile holding
 //   filler ++ "LOBJ" ++ 12 header bytes.   Input: one vector per line  "<filler letters or -> <g> <reads> <seeks> <found>"
+#include <csignal>
+#include <unistd.h>
 #include "blfkit.h"
 #include "pathrun.h"
 #include <Vector/BLF/Exceptions.h>
 
 using namespace Vector::BLF;
 
+static std::string g_cur;
+static void on_alarm(int) {
+    // the scan did not end: report and stop
+    printf("RESULT {\"driver\":\"resync\",\"paths\":0,\"steps\":0,\"mismatches\":1,\"first\":{\"filler\":\"%s\",\"got\":\"scan does not terminate\"}}\n", g_cur.c_str());
+    fflush(stdout);
+    _exit(0);
+}
+
 int main(int argc, char ** argv) {
     if (argc < 2) return 2;
     std::ifstream f(argv[1]);
     std::string filler;
-    long g, reads, seeks, found;
+    long g, reads, seeks, found, tail;
     long n = 0, bad = 0, opdiff = 0;
     std::string first;
-    while (f >> filler >> g >> reads >> seeks >> found) {
+    signal(SIGALRM, on_alarm);
+    while (f >> filler >> g >> reads >> seeks >> found >> tail) {
         if (filler == "-") filler.clear();
+        g_cur = filler + (tail ? " (stream ends here)" : "");
+        alarm(10);
         std::vector<uint8_t> bytes(filler.begin(), filler.end());
-        std::vector<uint8_t> obj = kit::raw_object(1, 48, 16);
-        for (size_t i = 4; i < 16; i++) obj[i] = 'x';                 // the spec's 12 neutral header bytes
-        bytes.insert(bytes.end(), obj.begin(), obj.end());
+        if (!tail) {
+            std::vector<uint8_t> obj = kit::raw_object(1, 48, 16);
+            for (size_t i = 4; i < 16; i++) obj[i] = 'x';             // the spec's 12 neutral header bytes
+            bytes.insert(bytes.end(), obj.begin(), obj.end());
+        }
         UncompressedFile uf;
         auto lc = std::make_shared<LogContainer>();
         lc->uncompressedFile = bytes;
@@ -34,7 +49,9 @@ int main(int argc, char ** argv) {
         long gg = (long) uf.m_tellg;
         // the property is about WHERE the scan ends; how many reads/seeks it takes is the implementation's
         // business (a different but correct scan must not raise an alarm) and is only counted
-        bool match = (ok == (found != 0)) && (!ok || gg == g + 12);
+        // stream ends behind the filler: the scan must END - by the library's exception or with the stream
+        // failed (a signature completed by stale bytes of a short read is then discarded by the caller)
+        bool match = tail ? (!ok || !uf.good()) : ((ok == (found != 0)) && (!ok || gg == g + 12));
         if (ok && (nr != reads + 4 || ns != seeks)) opdiff++;
         n++;
         if (!match) {
@@ -47,6 +64,7 @@ int main(int argc, char ** argv) {
             }
         }
     }
+    alarm(0);
     JObj o;
     o.puts("driver", "resync").put("paths", n).put("steps", n).put("mismatches", bad).put("opcount_differs", opdiff);
     if (!first.empty()) o.raw("first", first);
